@@ -101,6 +101,18 @@ CLAIMED = {
   text="Every exported accessor of every fork's BeaconStateView (phase0..electra) and of each typed sub-view reachable from it is exercised non-trivially at every seed (one mandatory class per table row): getters against the field path in the independently decoded state, setters against 'that field changed and every other byte unchanged', element accessors with modulo wrap, out-of-range and at-limit indices, compound ops against their written effect. Copy histories check after every action that every untouched state still has its snapshot bytes, root and (for simulator locks) a context equal to a fresh one. Values, indices and interleavings are sampled. Three genuine defects found and repaired.",
   note="Trusted: refssz and the accessor table (spec_tables/state_accessors.txt, harness transcription). The chain simulator stops at deneb, so electra is covered by accessor and raw-copy histories only; electra's pending queues have no typed accessor and are only checked for staying unchanged. Generic ztyp methods promoted onto the views are listed as uncovered in the evidence.",
   ref="§3 C15"),
+ "C04": dict(
+  technique="property-based differential testing (rapid) with rapid-mutated byte strings in the thorough tier: reference-encoded values of every registered SSZ type cross into the library as bytes under mainnet, minimal and two tiny custom presets; decode/encode/ByteLength/FixedLength/JSON/YAML round trips, JSON compared by spec field name; truncation, over-limit and offset-corruption inputs derived from each value and mutated/arbitrary bytes judged against an independent strict SSZ decoder; a go/parser scan measures type coverage",
+  level="exploration",
+  text="No violation after repair in ~87k (quick) / ~1.7M (thorough) cases per seed over 156 types x 4 presets (every type x family, every list-bearing type at its limits under the custom presets), with ~1M derived malformed inputs per quick run; found 6 defects from scratch (three wrong ByteLength/FixedLength families, full-bitlist refusal at limit%8==0, empty-span list elements accepted) and catches 7 textual mutants incl. a symmetric Serialize+Deserialize field swap (through the by-name JSON comparison). Values are sampled.",
+  note="Trusted: refssz and the transcribed schema table (cross-checked three ways in C05). Tolerated decoder leniencies outside the three refusal classes the property names: trailing bytes after a fixed-size top-level object; set padding bits in JustificationBits/SyncnetBits; nil slices marshal as JSON null. MAX_EXTRA_DATA_BYTES/BYTES_PER_LOGS_BLOOM are compile-time constants in the library and not varied. YAML judged by round trip only. uncovered = [common.specObj (unexported)].",
+  ref="§3 C04"),
+ "C05": dict(
+  technique="three-/four-way root comparison (struct form, ztyp TypeDef view, struct.View(), independent merkleizer) over the C04 registry and presets, plus model-based stateful testing (rapid) of beacon state views of all six forks: 43 setter/list/rotation/copy actions, every live copy checked after every action against a rebuild from its own bytes and a plain-value model",
+  level="exploration",
+  text="No violation after repair in ~30k (quick) / ~440k (thorough) cases per seed: 133 of 156 types have a view TypeDef compared; ~4.8k / 72k histories with up to 40 actions and 3 copies sharing structure under custom and minimal presets (mainnet in thorough); after every action the cached root must equal the root of a view rebuilt from the state's own bytes and the independent root of those bytes. Found 4 defects (electra attester-slashings view limit, ViewSignature scope, Transaction.View cast, FillZeroes(0) panic); catches 11 textual mutants incl. wrong field index, non-propagating setter and wrong view limit. Histories are sampled.",
+  note="Trusted: refssz + schema table + the per-action model (field-name semantics; index = argument mod vector length). ztyp ComplexListView/BasicListView.Pop (dependency, unused by zrnt) clears the wrong index and is excluded from the action set. Full state-transition steps on tree-backed states are judged by C01/C02's per-slot root comparison.",
+  ref="§3 C05"),
 }
 PENDING_REASON = "check not built yet in this session (designed in DESIGN.md §3; will be claimed when its machinery is committed)"
 
